@@ -1028,7 +1028,10 @@ def inplace_changes(t):
     out = set()
     for u in find_terms(t, lambda u_: u_[0] == "upd"):
         k = str(u[2]).split("@")[0]
-        k = k.split(":")[0] if k.startswith(("set:", "push:", "field:")) else k.rsplit("::", 1)[-1]
+        if k.startswith("set:") and "[" not in k:
+            k = "field-assignment"          # a whole field / local replaced, not an entry of a list
+        else:
+            k = k.split(":")[0] if k.startswith(("set:", "push:", "field:")) else k.rsplit("::", 1)[-1]
         if k not in _GROWTH:
             out.add(k)
     return sorted(out)
